@@ -87,7 +87,7 @@ fn exec(pool: &Pool<UObj>, sh: &Sh, tasks: &mut HashMap<String, UTask>, step: &V
         "take" => { let o = t.objs.remove(a[2].as_u64().unwrap() as usize);
             let r = catch_unwind(AssertUnwindSafe(|| { let raw = Object::take(o); ev(sh, json!(["handed", format!("obj:{}", raw.id), "take"])); drop(raw); }));
             if r.is_ok() { json!(["ok", "taken"]) } else { json!(["panic"]) } }
-        "close" => { if catch_unwind(AssertUnwindSafe(|| pool.close())).is_ok() { json!(["ok"]) } else { json!(["panic"]) } }
+        "close" | "tclose" => { if catch_unwind(AssertUnwindSafe(|| pool.close())).is_ok() { json!(["ok"]) } else { json!(["panic"]) } }
         "status" => { let s = pool.status(); json!(["ok", [s.max_size, s.size, s.available, s.waiting]]) }
         "is_closed" => json!(["ok", pool.is_closed()]),
         other => panic!("unknown action {}", other),
